@@ -88,7 +88,7 @@ pub fn hook(gn: &mut Gen, w: &mut World) -> Option<Step> {
             if w.gview(node, eg).is_none() {
                 return None;
             }
-            HostileOp::Rewrap { ev, mode: gn.rng().below(4) as u8, g2: (eg + 1) % w.groups.len().max(1) }
+            HostileOp::Rewrap { ev, mode: gn.rng().below(5) as u8, g2: (eg + 1) % w.groups.len().max(1) }
         }
         "h_commit" => {
             if !w.is_active_member(node, g) || w.has_pending_commit(node, g) {
